@@ -20,6 +20,7 @@ EXPLANATION = (
     " read_auto may repair treebank glitches only on whole fields (never by whole-line replace / regex substitution), and the value of a leaf's last field -- truncated by next() when the leaf ends the line -- must not be used."
     ' Third round: read_auto hands the whole line to the reader (no cut at a marker); every node record read yields a node carrying its category.'
     ' Fourth round: normalize / denormalize may be table-driven, a membership test of the word in a text is a substring test; the line is handed to the reader as written (no conversion of the whole line).'
+    ' Fifth round: read_auto yields every tree line it parses; all ways a writer formats one record kind are the same sequence of fields.'
 )
 TRUSTED = ['CPython ast', 'sa/pysym.py path walker', 'rule table DESIGN.md C08']
 
